@@ -47,6 +47,11 @@ CHECKS = {
          "Every interleaving up to the depth bound of propose/approve/cancel by three signers and an outsider (with no/right/wrong proposal hash), direct admin calls, self-administration transactions (add/remove/swap signer by ID and by key address, threshold, lock), re-entrant self Approve/Propose and time steps over the vesting lock is executed on the real actor from five base wallets; after every step accept/reject, the ordered list of sends leaving the wallet, signers, threshold, pending approvals, lock and balance must equal an independent quorum model that executes a transaction only with >= threshold distinct current signers, once, within the lock.",
          "mcvm stands in for the FVM; transactions come from a fixed menu; amounts from {15, 50, -1}; at most 3-4 proposals per history.",
          "DESIGN.md §3 C12"),
+ "C13": ("model_checking",
+         "explicit-state BFS over the real miner actor with a protocol model of the three hand-shakes in lock-step",
+         "Every interleaving up to the depth bound of ChangeOwnerAddress, ChangeWorkerAddress, ConfirmChangeWorkerAddress, ChangeBeneficiary (several term shapes) and WithdrawBalance issued by each of seven parties (owner, nominee owner, worker, new worker, control, beneficiary nominee, stranger) with epoch advances (real cron every epoch, which may apply a pending worker key) is executed; accept/reject of every call, owner/pending owner, worker/pending key and its effective epoch, control addresses, beneficiary, term and pending approvals must equal the protocol model after every step, withdrawals must pay exactly the allowed amount to the beneficiary, and after every step a control-level method is probed from all seven parties and must be accepted from exactly the model's controlling set.",
+         "SMALL policy (worker-key delay 3 epochs); mcvm stands in for the FVM; a miner with one sector; beneficiary terms from a 2x2 alphabet.",
+         "DESIGN.md §3 C13"),
  "C16": ("model_checking",
          "explicit-state BFS over the real paych actor with a lane reference model in lock-step",
          "Every sequence up to the depth bound of vouchers from the declared grid (lane x nonce x amount x merges, plus one-field deviations: signer, submitter, time lock, secret, settle height, channel, signature), settle/collect by each party and time steps is executed on the real actor; after every step the decoded channel state must equal an independent lane model and collect payouts are checked from balance deltas.",
